@@ -62,7 +62,7 @@ theorem gcok_put {st : St} (I : Inv st) (m : Msg) (g : GcSt) (G : GcOK st g) : G
         by_cases e : n = nextSeq st.q
         · subst e; exact Nat.le_refl _
         · rw [hne n e]
-          have hcur := I.qs.cur st.q.appended.toNat (by omega)
+          have hcur := I.qs.base st.q.appended.toNat (by omega)
           have hm := g3 n st.q.appended.toNat h1 (by omega) (by omega)
           omega
       · rw [hne n (by omega), hne n' e']
@@ -74,7 +74,7 @@ theorem gcok_put {st : St} (I : Inv st) (m : Msg) (g : GcSt) (G : GcOK st g) : G
       rw [r3] at h2
       by_cases e : n = nextSeq st.q
       · subst e
-        have hcur := I.qs.cur st.q.appended.toNat (by omega)
+        have hcur := I.qs.base st.q.appended.toNat (by omega)
         have hb := g3 st.q.appended.toNat (by omega) (by omega)
         omega
       · rw [hne n e]; exact g3 n h1 (by omega)
@@ -121,7 +121,7 @@ theorem gc_truncData_inv {st : St} (I : Inv st) {a : Int} {b : Nat} (G : GcOK st
   have C := I.core
   have hah := C.ackHi
   have hap0 : 0 ≤ st.q.appended := by omega
-  have hcur := I.qs.cur st.q.appended.toNat (by omega)
+  have hcur := I.qs.base st.q.appended.toNat (by omega)
   refine ⟨?_, ⟨Int.le_refl _, Int.le_refl _, ?_⟩, g1, g2⟩
   · apply frame_inv I _ b 0
     · rfl
@@ -132,9 +132,10 @@ theorem gc_truncData_inv {st : St} (I : Inv st) {a : Int} {b : Nat} (G : GcOK st
       exact ⟨hp, hb⟩
     · intro p hp _; exact hp
     · intro n hn; exact g3 n (by unfold Readable at hn; omega) hn.2
-    · rw [hcur.1]; exact g3 _ (by omega) (by omega)
+    · have := g3 st.q.appended.toNat (by omega) (by omega)
+      omega
     · intro _ _; exact Nat.zero_le _
-    · exact Nat.zero_le _
+    · exact Or.inl (Nat.zero_le _)
   · intro n hn _
     dsimp only
     unfold content
@@ -170,7 +171,11 @@ theorem gc_truncIndex_inv {st : St} (I : Inv st) {a : Int} (G : GcOK st (.trunca
     · intro _ _; exact Nat.zero_le _
     · exact Nat.zero_le _
     · intro n hn; unfold Readable at hn; qomega
-    · rw [I.qs.ipi]; have := C.ackHi; qomega
+    · have hah := C.ackHi
+      have hap := nextSeq_cast (Int.le_trans C.ackLo C.ackHi)
+      by_cases hc : a.toNat / indexItemsPerPage ≤ st.q.indexPageIndex
+      · exact Or.inl hc
+      · right; qomega
   · intro n hn _
     dsimp only
     unfold content
